@@ -192,6 +192,14 @@ def gen(rng, tier):
     for i in range(40 if tier == "quick" else 600):
         st = gen_struct(rng)
         add("hist/twice", "hist S:%s:-:%d X S:%s:%s:%d S:%s:%s:%d T" % (st, cat_of(st), st, gen_vals(rng, st), cat_of(st), st, gen_vals(rng, st), cat_of(st)))
+    # two controllers paired, one removed: still paired (sf = 0), also after a restart; removing a name that is not stored
+    add("hist/live", "hist S:l:-:5 PS:c1 AD:c1:c2 T E RM:c1:c2 T E X S:l:-:5 T RM:c1:c3 T RM:c1:c1 T E X S:l:-:5 T")
+    add("hist/live", "hist S:l,s:-:2 PS:c1 AD:c1:c2 AD:c1:c3 T RM:c2:c1 T E RM:c2:c9 T RM:c3:c2 T RM:c3:c3 T E")
+    # a start with a changed structure that is killed at EVERY crash point of its file writes, then started again:
+    # the configuration number must have increased (and must then stay)
+    for g in range(0, 30 if tier == "quick" else 40):
+        a, b = rng.choice([("l", "l1"), ("l,s", "l,s,o"), ("t", "t3"), ("s2", "s")])
+        add("hist/crash", "hist S:%s:-:%d X C:%d:%s S:%s:-:%d X S:%s:-:%d T E" % (a, cat_of(a), g, b, b, cat_of(b), b, cat_of(b)))
     # a controller pairing under the accessory's own device id (recorded finding)
     add("hist/self", "hist S:l:-:5 E PSELF T E X S:l:-:5 T E")
     add("hist/self", "hist S:l,s:-:2 PS:c1 T PSELF T E S:l,s:-:2 T E")
@@ -302,9 +310,20 @@ def oracle_hist(c, obs):
                 ident = (m.group(1), m.group(2))
             elif ident != (m.group(1), m.group(2)):
                 return "the device id / key pair changed across a restart on the same storage (first seen at start %s/%s, now %s/%s)" % (ident + (m.group(1), m.group(2)))
-            v = ver if ver is not None else 1
-            if h is not None and h != p[1]:
-                v += 1
+            if isinstance(ver, tuple):
+                # first start after an interrupted one: old < c# <= old + 2 when the structure differs from the one before the crash
+                oldv, oldh = ver[1], h[1]
+                got = int(m.group(3))
+                if oldh is not None and oldh != p[1] and not (oldv < got <= oldv + 2):
+                    return "after a start with a changed structure was killed and repeated, the configuration number is %d (was %d before the change): it must have increased" % (got, oldv)
+                if (oldh is None or oldh == p[1]) and not (oldv <= got <= oldv + 2):
+                    return "configuration number %d after an interrupted start, was %d" % (got, oldv)
+                ver, h, cur_ver = got, p[1], got
+                v = got
+            else:
+                v = ver if ver is not None else 1
+                if h is not None and h != p[1]:
+                    v += 1
             if int(m.group(3)) != v:
                 why = "the structure changed" if (h is not None and h != p[1]) else "the structure did not change"
                 return "configuration number %s after restart, expected %d (%s since the previous run: %s -> %s)" % (m.group(3), v, why, h, p[1])
@@ -318,6 +337,14 @@ def oracle_hist(c, obs):
             d = decode_xhm(bytes.fromhex(m.group(7)).decode("latin-1"))
             if d is None or (d["code"], d["cat"], d["flags"], d["sid"], d["rest"]) != (int(pin), cat_of(p[1]), 2, sid, 0):
                 return "XHMURI() decodes to %s, expected code %d category %d flags 2 id %s" % (d, int(pin), cat_of(p[1]), sid)
+        elif p[0] == "C":
+            o = nxt("C")
+            if o != "done":
+                return "harness: the crashing child did not run: %s" % o
+            running = False
+            crashed = (ver if ver is not None else 1, p[2])
+            # what the interrupted start left behind is one of the states in between; the next S decides
+            ver, h = ("any", crashed[0]), ("any", h, p[2])
         elif p[0] == "X":
             running = False
         elif p[0] == "T":
@@ -371,6 +398,12 @@ def oracle(c, obs):
     if k == "xhm":
         return oracle_xhm(c, obs)
     return oracle_hist(c, obs)
+
+
+def same(c, g, m):
+    # histories with an interrupted start have no model line (the crash point is a run-time notion): the oracle decides,
+    # the save order they depend on is covered by C20_interrupted_start_still_increases
+    return g == m or c["kind"] == "hist/crash"
 
 
 def nontrivial(c):
